@@ -790,9 +790,9 @@ theorem axisScale_ne_zero (m : Rat) : axisScale m ≠ 0 := by
   · simp
 
 /-- `Polygon.Centroid` as regenerated (its call of itself on the rescaled copy read as the loops below the guard)
-returns the model's `polygonCentroid`, fault for fault -/
-theorem C03_tie_Centroid (p : Poly) : Gen.polygon_Centroid p = Go.lift (polygonCentroid p) := by
-  unfold Gen.polygon_Centroid polygonCentroid centScale
+returns the model's `polygonCentroidScaled`, fault for fault -/
+theorem C03_tie_Centroid_scaled (p : Poly) : Gen.polygon_Centroid_scaled p = Go.lift (polygonCentroidScaled p) := by
+  unfold Gen.polygon_Centroid_scaled polygonCentroidScaled centScale
   simp only [C03_tie_centroidScale, List.flatten_cons, List.flatten_nil, List.append_nil, bind, Except.bind, pure,
     Except.pure]
   by_cases h : axisScale (maxAbsX p) ≠ 1 ∨ axisScale (maxAbsY p) ≠ 1
@@ -802,10 +802,10 @@ theorem C03_tie_Centroid (p : Poly) : Gen.polygon_Centroid p = Go.lift (polygonC
   · have hd : (decide (axisScale (maxAbsX p) ≠ 1) || decide (axisScale (maxAbsY p) ≠ 1)) = false := by simpa using h
     simp only [hd, h, if_false, Bool.false_eq_true, C03_tie_Centroid_core]
 
-/-- `MultiPolygon.Centroid` as regenerated returns, without fault, the model's `multiPolygonCentroid` -/
-theorem C03_tie_MultiPolygon_Centroid (mp : MPoly) :
-    Gen.multiPolygon_Centroid mp = .ok (multiPolygonCentroid mp) := by
-  unfold Gen.multiPolygon_Centroid multiPolygonCentroid centScale
+/-- `MultiPolygon.Centroid` as regenerated returns, without fault, the model's `multiPolygonCentroidScaled` -/
+theorem C03_tie_MultiPolygon_Centroid_scaled (mp : MPoly) :
+    Gen.multiPolygon_Centroid_scaled mp = .ok (multiPolygonCentroidScaled mp) := by
+  unfold Gen.multiPolygon_Centroid_scaled multiPolygonCentroidScaled centScale
   simp only [C03_tie_centroidScale, bind, Except.bind, pure, Except.pure]
   by_cases h : axisScale (maxAbsX mp.flatten) ≠ 1 ∨ axisScale (maxAbsY mp.flatten) ≠ 1
   · have hd : (decide (axisScale (maxAbsX mp.flatten) ≠ 1) || decide (axisScale (maxAbsY mp.flatten) ≠ 1)) = true := by
@@ -822,9 +822,9 @@ theorem C03_tie_MultiPolygon_Centroid (mp : MPoly) :
 
 /-- `op.Centroid` on a Polygon as regenerated (inline range guard: the two axis-scale blocks are the recognised
 statement group, its call of itself on the rescaled copy is the loop below the guard) returns, without fault, the
-model's `opCentroid` -/
-theorem C03_tie_op_Centroid (p : Poly) : Gen.op_Centroid p = .ok (opCentroid p) := by
-  unfold Gen.op_Centroid opCentroid centScale
+model's `opCentroidScaled` -/
+theorem C03_tie_op_Centroid_scaled (p : Poly) : Gen.op_Centroid_scaled p = .ok (opCentroidScaled p) := by
+  unfold Gen.op_Centroid_scaled opCentroidScaled centScale
   simp only [bind, Except.bind, pure, Except.pure]
   rw [forRange_foldl (fun (s : Rat × Rat) (r : Ring) => r.foldl (fun s v => (max s.1 (absR v.x), max s.2 (absR v.y))) s)]
   · rw [poly_pair_foldl]
@@ -854,6 +854,108 @@ theorem C03_tie_op_Centroid (p : Poly) : Gen.op_Centroid p = .ok (opCentroid p) 
     rw [forRange_foldl (fun (s : Rat × Rat) (v : P) => (max s.1 (absR v.x), max s.2 (absR v.y)))]
     intro s i v
     rfl
+
+/-! ## the origin guard of the centroids (fix "centroids form their moment sums relative to the first vertex") -/
+
+theorem len_cons_ne {α : Type} (a : α) (t : List α) : decide (Go.len (a :: t) = 0) = false := by
+  have : ((t.length : Int) + 1 = 0) = False := by
+    apply eq_false; omega
+  simp [Go.len, this]
+theorem len_nil_eq {α : Type} : decide (Go.len ([] : List α) = 0) = true := by simp [Go.len]
+theorem idx0_cons {α : Type} (a : α) (t : List α) : Go.idx (a :: t) 0 = .ok a := by
+  simp [Go.idx, pure, Except.pure]
+
+/-- `centroidOrigin(rings...)` (area.go) as regenerated returns, without fault, the first vertex of the first ring of the
+first polygon, or (0, 0) -/
+theorem C03_tie_centroidOrigin (rings : MPoly) : Gen.centroidOrigin rings = .ok (firstVertexM rings) := by
+  unfold Gen.centroidOrigin Gen.centroidAxisOrigin
+  match rings with
+  | [] => simp only [len_nil_eq, Go.orElse, firstVertexM, bind, Except.bind, pure, Except.pure, if_true]
+  | [] :: _ =>
+    simp only [len_cons_ne, len_nil_eq, idx0_cons, Go.orElse, firstVertexM, firstVertex, bind, Except.bind, pure,
+      Except.pure, if_true, if_false, Bool.false_eq_true]
+  | ([] :: _) :: _ =>
+    simp only [len_cons_ne, len_nil_eq, idx0_cons, Go.orElse, firstVertexM, firstVertex, bind, Except.bind, pure,
+      Except.pure, if_true, if_false, Bool.false_eq_true]
+  | ((v :: _) :: _) :: _ =>
+    simp only [len_cons_ne, idx0_cons, Go.orElse, firstVertexM, firstVertex, bind, Except.bind, pure,
+      Except.pure, if_false, Bool.false_eq_true]
+
+/-- `centroidOrigin(p)` (op/properties.go) as regenerated returns, without fault, the first vertex of the first ring, or (0, 0) -/
+theorem C03_tie_op_centroidOrigin (p : Poly) : Gen.op_centroidOrigin p = .ok (firstVertex p) := by
+  unfold Gen.op_centroidOrigin Gen.op_centroidAxisOrigin
+  match p with
+  | [] => simp only [len_nil_eq, Go.orElse, firstVertex, bind, Except.bind, pure, Except.pure, if_true]
+  | [] :: _ =>
+    simp only [len_cons_ne, len_nil_eq, idx0_cons, Go.orElse, firstVertex, bind, Except.bind, pure,
+      Except.pure, if_true, if_false, Bool.false_eq_true]
+  | (v :: _) :: _ =>
+    simp only [len_cons_ne, idx0_cons, Go.orElse, firstVertex, bind, Except.bind, pure,
+      Except.pure, if_false, Bool.false_eq_true]
+
+/-- `Polygon.translated(ox, oy)` as regenerated returns, without fault, the model's `translatePoly` -/
+theorem C03_tie_translated (p : Poly) (ox oy : Rat) : Gen.polygon_translated p ox oy = .ok (translatePoly ox oy p) := by
+  unfold Gen.polygon_translated translatePoly
+  simp only [len_eq, make_ok, bind, Except.bind, pure, Except.pure]
+  rw [forRange_fill (translateRing ox oy)]
+  intro o i r _ hi
+  simp only [make_ok, setIdx_ok o i _ hi, bind, Except.bind, pure, Except.pure, Go.forRange]
+  have hi' : i < (o.set i (List.replicate r.length (⟨0, 0⟩ : P))).length := by simpa using hi
+  refine Eq.trans (forRangeAux_row (fun v : P => (⟨v.x - ox, v.y - oy⟩ : P)) i _ ?_
+    r (o.set i (List.replicate r.length (⟨0, 0⟩ : P))) [] (List.replicate r.length (⟨0, 0⟩ : P)) hi' (by simp) (by simp)) ?_
+  · intro o j x hi hj
+    simp [setIdx2_ok o i j _ hi hj, bind, Except.bind, pure, Except.pure]
+  · simp [translateRing]
+
+/-- `Polygon.Centroid` as regenerated (its call of itself on the translated copy read as the function below the origin
+guard, there its call of itself on the rescaled copy as the loops) returns the model's `polygonCentroid`, fault for fault -/
+theorem C03_tie_Centroid (p : Poly) : Gen.polygon_Centroid p = Go.lift (polygonCentroid p) := by
+  unfold Gen.polygon_Centroid polygonCentroid centOrigin
+  simp only [C03_tie_centroidOrigin, firstVertexM, bind, Except.bind, pure, Except.pure]
+  by_cases h : (firstVertex p).1 ≠ 0 ∨ (firstVertex p).2 ≠ 0
+  · have hd : (decide ((firstVertex p).1 ≠ 0) || decide ((firstVertex p).2 ≠ 0)) = true := by simpa using h
+    simp only [hd, h, if_true, C03_tie_translated, C03_tie_Centroid_scaled]
+    cases polygonCentroidScaled (translatePoly (firstVertex p).1 (firstVertex p).2 p) <;> rfl
+  · have hd : (decide ((firstVertex p).1 ≠ 0) || decide ((firstVertex p).2 ≠ 0)) = false := by simpa using h
+    simp only [hd, h, if_false, Bool.false_eq_true, C03_tie_Centroid_scaled]
+
+/-- `MultiPolygon.Centroid` as regenerated returns, without fault, the model's `multiPolygonCentroid` -/
+theorem C03_tie_MultiPolygon_Centroid (mp : MPoly) :
+    Gen.multiPolygon_Centroid mp = .ok (multiPolygonCentroid mp) := by
+  unfold Gen.multiPolygon_Centroid multiPolygonCentroid centOriginM
+  simp only [C03_tie_centroidOrigin, bind, Except.bind, pure, Except.pure]
+  by_cases h : (firstVertexM mp).1 ≠ 0 ∨ (firstVertexM mp).2 ≠ 0
+  · have hd : (decide ((firstVertexM mp).1 ≠ 0) || decide ((firstVertexM mp).2 ≠ 0)) = true := by simpa using h
+    simp only [hd, h, if_true, len_eq, make_ok]
+    rw [forRange_fill (translatePoly (firstVertexM mp).1 (firstVertexM mp).2)]
+    · simp only [C03_tie_MultiPolygon_Centroid_scaled]
+    · intro o i p _ hi
+      simp [C03_tie_translated, setIdx_ok o i _ hi, bind, Except.bind, pure, Except.pure]
+  · have hd : (decide ((firstVertexM mp).1 ≠ 0) || decide ((firstVertexM mp).2 ≠ 0)) = false := by simpa using h
+    simp only [hd, h, if_false, Bool.false_eq_true, C03_tie_MultiPolygon_Centroid_scaled]
+
+/-- `op.Centroid` on a Polygon as regenerated (inline origin guard; its call of itself on the translated copy is the function
+below that guard) returns, without fault, the model's `opCentroid` -/
+theorem C03_tie_op_Centroid (p : Poly) : Gen.op_Centroid p = .ok (opCentroid p) := by
+  unfold Gen.op_Centroid opCentroid centOrigin
+  simp only [C03_tie_op_centroidOrigin, bind, Except.bind, pure, Except.pure]
+  by_cases h : (firstVertex p).1 ≠ 0 ∨ (firstVertex p).2 ≠ 0
+  · have hd : (decide ((firstVertex p).1 ≠ 0) || decide ((firstVertex p).2 ≠ 0)) = true := by simpa using h
+    simp only [hd, h, if_true, len_eq, make_ok]
+    rw [forRange_fill (translateRing (firstVertex p).1 (firstVertex p).2)]
+    · simp only [C03_tie_op_Centroid_scaled]
+      rfl
+    · intro o i r _ hi
+      simp only [make_ok, setIdx_ok o i _ hi, bind, Except.bind, pure, Except.pure, Go.forRange]
+      have hi' : i < (o.set i (List.replicate r.length (⟨0, 0⟩ : P))).length := by simpa using hi
+      refine Eq.trans (forRangeAux_row (fun v : P => (⟨v.x - (firstVertex p).1, v.y - (firstVertex p).2⟩ : P)) i _ ?_
+        r (o.set i (List.replicate r.length (⟨0, 0⟩ : P))) [] (List.replicate r.length (⟨0, 0⟩ : P)) hi' (by simp)
+        (by simp)) ?_
+      · intro o j x hi hj
+        simp [setIdx2_ok o i j _ hi hj, bind, Except.bind, pure, Except.pure]
+      · simp [translateRing]
+  · have hd : (decide ((firstVertex p).1 ≠ 0) || decide ((firstVertex p).2 ≠ 0)) = false := by simpa using h
+    simp only [hd, h, if_false, Bool.false_eq_true, C03_tie_op_Centroid_scaled]
 
 /-! ## op/properties.go: the Polygon / MultiPolygon cases of `Area` -/
 
